@@ -97,6 +97,9 @@ func (s Schema) Values(t Term, budget int) []any {
 		if len(elems) >= 2 {
 			out = append(out, []any{elems[0], elems[1]})
 		}
+		if len(elems) >= 3 {
+			out = append(out, []any{elems[1], elems[2]}, []any{elems[2], elems[1], elems[2]})
+		}
 	case "map":
 		elems := s.Values(t.Sub[1], budget)
 		out = append(out, map[string]any{})
@@ -105,6 +108,10 @@ func (s Schema) Values(t Term, budget int) []any {
 		}
 		if len(elems) >= 2 {
 			out = append(out, map[string]any{"k": elems[0], "l": elems[1]})
+		}
+		if len(elems) >= 3 {
+			// two non-trivial entries (a decoder sharing state between entries shows here)
+			out = append(out, map[string]any{"k": elems[1], "l": elems[2]}, map[string]any{"k": elems[2], "l": elems[1], "m": elems[2]})
 		}
 	case "disj", "inter":
 		for _, b := range t.Sub {
